@@ -18,9 +18,17 @@ on dyadic inputs, so it is exact under REAL and rounds differently under each
 of the small contexts used (precisions 2..6 with different rounding modes, and
 IEEE half): a context taken from the wrong place changes the result.
 
+  factory f -> {g3, g5[, g7]} [-> via [-> via2]] :  callees made by ONE factory, so that
+                  they capture DIFFERENT values under the SAME free-variable name K (the
+                  caller's own scope does not bind K) -- or the same value (control);
+                  callee context x body {fglob, fglobwith} x layout (FACT_LAYOUTS: one
+                  statement, two statements, loop + top level, chain through a helper,
+                  both inside the helper, 3-chain) x {2, 3 callees} x {different, same}
+
 A program is described by a tuple (picklable, JSON-able):
   ('pair', gctx, gbody, position, argform)
   ('chain', gctx, gchain, hctx, hbody, position)
+  ('fact', gctx, fbody, layout, ncallees, variant)
 and `build(desc)` returns its source text.
 """
 
@@ -163,8 +171,71 @@ def _caller(position: str, argform: str) -> str:
     return f'@fp.fpy\ndef f(u: fp.Real, v: fp.Real, us: list[fp.Real], n: fp.Real):\n{body}\n'
 
 
+# ---- factory family: one captured name, several captured values -----------------
+
+FACT_BODIES = {
+    'fglob': ['return x * K + x'],
+    'fglobwith': [f'with {W_CTX}:', '    a = x * K', 'return a + x'],
+}
+FACT_VALUES = {'diff': ('1.5625', '2.75', '0.375'), 'same': ('1.5625', '1.5625', '1.5625')}
+
+# layout -> (callee counts it exists for, helper functions, caller lines) by number of callees
+FACT_LAYOUTS = {
+    'one_stmt': {2: ([], ['z = g3(u, us) + g5(v, us)']),
+                 3: ([], ['z = g3(u, us) + g5(v, us) * g7(u, us)'])},
+    'two_stmts': {2: ([], ['a = g3(u, us)', 'z = a * g5(v, us)']),
+                  3: ([], ['a = g3(u, us)', 'z = a * g5(v, us)', 'z = z + g7(u, us)'])},
+    'loop_top': {2: ([], ['z = 0', 'for x in us:', '    z = z + g3(x, us)', 'z = z * g5(v, us)'])},
+    'chain': {2: ([('via', ['return g5(x, xs) + 1'])], ['z = g3(u, us) - via(v, us)'])},
+    'chain_inner': {2: ([('via', ['return g3(x, xs) + g5(x, xs)'])], ['z = via(u, us) + v']),
+                    3: ([('via', ['a = g3(x, xs) + g5(x, xs)', 'return a * g7(x, xs)'])], ['z = via(u, us) + v'])},
+    'chain3': {2: ([('via', ['return g5(x, xs) + 1']), ('via2', ['return via(x, xs) * x'])],
+                   ['z = g3(u, us) - via2(v, us)'])},
+}
+
+
+def fact_functions(desc) -> list[str]:
+    """Names of the FPy functions of a factory program other than f."""
+    _, _, _, layout, n, _ = desc
+    helpers, _ = FACT_LAYOUTS[layout][n]
+    return ['g3', 'g5'] + (['g7'] if n == 3 else []) + [h for h, _ in helpers]
+
+
+def _build_fact(desc) -> str:
+    _, gctx, fbody, layout, n, variant = desc
+    ctx = CALLEE_CTX[gctx]
+    deco = '@fp.fpy' if ctx is None else f'@fp.fpy(ctx={ctx})'
+    body = '\n'.join('        ' + ln for ln in FACT_BODIES[fbody])
+    src = f'KF = {KF_VALUE}\nKG = {KG_VALUE}\n\n'
+    src += (f'def make_g(K):\n    {deco}\n    def gk(x: fp.Real, xs: list[fp.Real]) -> fp.Real:\n'
+            f'{body}\n    return gk\n\n')
+    vals = FACT_VALUES[variant]
+    for name, val in zip(('g3', 'g5', 'g7'), vals[:n]):
+        src += f'{name} = make_g({val})\n'
+    src += '\n'
+    helpers, lines = FACT_LAYOUTS[layout][n]
+    for hname, hlines in helpers:
+        src += _callee(hname, 'none', ('x', 'xs'), hlines) + '\n'
+    cbody = '\n'.join('    ' + ln for ln in lines + [RET])
+    src += f'@fp.fpy\ndef f(u: fp.Real, v: fp.Real, us: list[fp.Real], n: fp.Real):\n{cbody}\n'
+    return src
+
+
+def all_facts() -> list[tuple]:
+    out = []
+    for layout, by_n in FACT_LAYOUTS.items():
+        for n in by_n:
+            for fbody in FACT_BODIES:
+                for variant in FACT_VALUES:
+                    for gctx in CALLEE_CTX:
+                        out.append(('fact', gctx, fbody, layout, n, variant))
+    return out
+
+
 def build(desc) -> str:
     """Source text of the program `desc` (module body after the loader prelude)."""
+    if desc[0] == 'fact':
+        return _build_fact(desc)
     head = f'K = {K_VALUE}\nKF = {KF_VALUE}\nKG = {KG_VALUE}\n\n'
     if desc[0] == 'pair':
         _, gctx, gbody, position, argform = desc
@@ -185,6 +256,10 @@ def describe(desc) -> dict:
         _, gctx, gbody, position, argform = desc
         return {'position': position, 'inner': '-', 'effect': effect_of([gbody]),
                 'callee': gbody, 'callee_ctx': gctx, 'args': argform}
+    if desc[0] == 'fact':
+        _, gctx, fbody, layout, n, variant = desc
+        return {'position': f'fact_{layout}', 'inner': f'{n}-callees-{variant}', 'effect': 'reads-captured',
+                'callee': fbody, 'callee_ctx': gctx, 'args': 'A0'}
     _, gctx, gchain, hctx, hbody, position = desc
     return {'position': position, 'inner': gchain, 'effect': effect_of([hbody]),
             'callee': f'{gchain}>{hbody}', 'callee_ctx': f'{gctx}>{hctx}', 'args': 'A0'}
